@@ -274,6 +274,12 @@ def explore_maps(prop, tier, seed, n_quick, mode):
                         lm = h.compare_genomes_lateral(gs[g1], gs[g2])
                         per = sorted(ob.hmapS(m) for m in lm.maps.values())
                         o.put('lmap', '%s,%s|anc=%s|%s' % (taxS(g1), taxS(g2), taxS(pathof(lm.ancestor.taxon)), ' # '.join(per)))
+                        o.put('lagg', '%s,%s|lost=%s|gained=%s|ret=%s|dup=%s' % (
+                            taxS(g1), taxS(g2),
+                            ';'.join(sorted(nodekey(k) + '@' + '+'.join(sorted(taxS(pathof(z.taxon)) for z in v)) for k, v in lm.get_lost().items())),
+                            ';'.join(sorted(taxS(pathof(k.taxon)) + '@' + '+'.join(sorted(nodekey(z) for z in v)) for k, v in lm.get_gained().items())),
+                            ';'.join(sorted(nodekey(k) + '@' + '+'.join(sorted(taxS(pathof(gg.taxon)) + '>' + nodekey(z) for gg, z in v.items())) for k, v in lm.get_retained().items())),
+                            ';'.join(sorted(nodekey(k) + '@' + '+'.join(sorted(taxS(pathof(gg.taxon)) + '>' + ','.join(sorted(nodekey(z) for z in zs)) for gg, zs in v.items())) for k, v in lm.get_duplicated().items()))))
                         queries.append('(l %s %s)' % (tax_q(g1), tax_q(g2)))
                         try:
                             m = h.compare_genomes_vertically(gs[g1], gs[g2]).map
@@ -285,7 +291,7 @@ def explore_maps(prop, tier, seed, n_quick, mode):
             bad = ['comparison raised %s: %s' % (type(e).__name__, e)]
         if bad:
             ex.fail(cid, D, bad)
-        tags = {'C05': ['vmap'], 'C06': ['vmap', 'upmap'], 'C07': ['upmap'], 'C08': ['lmap', 'vmap', 'verr', 'lerr']}[mode]
+        tags = {'C05': ['vmap'], 'C06': ['vmap', 'upmap'], 'C07': ['upmap'], 'C08': ['lmap', 'lagg', 'vmap', 'verr', 'lerr']}[mode]
         ex.submit(cid, D, o.tags, ['load'] + tags, queries=queries)
     ex.finish()
     ex.close()
@@ -320,13 +326,24 @@ def explore_profiles(prop, tier, seed, n_quick):
             bad = orc.c09(D, h, ex.tmp) if prop == 'C09' else orc.c10(D, h)
             tp = h.create_tree_profile()
             o.put('tpfull', ob.profileS(tp.treemap))
+            if prop == 'C09':
+                tp.export_as_html(ex.tmp + '/tpj.html')
+                data = orc.html_tree_data(ex.tmp + '/tpj.html')
+                items = []
+                def walkj(j, p):
+                    ev = j['evolutionaryEvents']
+                    items.append(taxS(p) + '=' + str(j['numberGenes']) + ',' + ('false' if ev is False else ','.join(ob.onS(ev[k]) for k in ('retained', 'duplicated', 'gained', 'lost', 'duplication'))))
+                    for i, c in enumerate(j.get('children', [])):
+                        walkj(c, p + (i,))
+                walkj(data, ())
+                o.put('tpjson', ' '.join(items))
             for tid, top in h.get_dict_top_level_hogs().items():
                 o.put('tphog', ob.osS(tid) + '|' + ob.profileS(h.create_tree_profile(hog=top).treemap, pathof(top.genome.taxon)))
         except Exception as e:      # noqa
             bad = ['tree profile raised %s: %s' % (type(e).__name__, e)]
         if bad:
             ex.fail(cid, D, bad)
-        ex.submit(cid, D, o.tags, ['load', 'tpfull'] if prop == 'C09' else ['load', 'tpfull', 'tphog'], emit=['profiles'])
+        ex.submit(cid, D, o.tags, ['load', 'tpfull', 'tpjson'] if prop == 'C09' else ['load', 'tpfull', 'tphog'], emit=['profiles'])
     ex.finish()
     ex.close()
     return ex.res
@@ -503,6 +520,7 @@ def c12(tier, seed):
                     if sub_nwk not in html:
                         bad.append('iHam page of %s does not embed the species subtree' % key)
                     fd = json.loads(vis.famdata)
+                    o.put('ifam', key + '|' + ';'.join(sorted('%s/%s/%s' % (r['id'], r['taxon']['species'], ob.osS(r['protid'])) for r in fd)))
                     if sorted(r['id'] for r in fd) != sorted(g.unique_id for g in nd.get_all_descendant_genes()):
                         bad.append('iHam page of %s: family data records differ from the members' % key)
                     if vis.famdata not in html:
@@ -512,7 +530,7 @@ def c12(tier, seed):
                 nd.hogvis = None
         if bad:
             ex.fail(cid, D, bad)
-        ex.submit(cid, D, o.tags, ['load', 'idecl', 'irt'], emit=['iham'], extra=o)
+        ex.submit(cid, D, o.tags, ['load', 'idecl', 'irt', 'ifam'], emit=['iham'], extra=o)
     def custom(cid, D, pytags, L, o):
         d = core.diff_tags(pytags, L, ['ixml'])
         if d:
